@@ -356,9 +356,13 @@ double splinetable<Alloc>::ndsplineeval_deriv(const double* x, const int* center
 						  localbasis[n]);
 		} else {
 			//bspline_deriv takes the polynomial piece to the right of a knot,
-			//but the last supported point belongs to the piece on its left
+			//but from the last supported point upwards (that point, the knots
+			//inside the upper margin, the last knot) a knot belongs to the
+			//piece on its left
 			double xn = x[n];
-			if (xn == knots[n][centers[n]+1])
+			if (xn >= knots[n][centers[n]+1] &&
+			    std::binary_search(&knots[n][centers[n]+1],
+			                       &knots[n][0]+nknots[n], xn))
 				xn = std::nextafter(xn, knots[n][centers[n]]);
 			for (uint32_t i = 0; i <= order[n]; i++)
 				localbasis[n][i] = bspline_deriv(
@@ -579,9 +583,13 @@ double splinetable<Alloc>::evaluator_type<Float>::ndsplineeval_deriv(const doubl
 						  localbasis[n]);
 		} else {
 			//bspline_deriv takes the polynomial piece to the right of a knot,
-			//but the last supported point belongs to the piece on its left
+			//but from the last supported point upwards (that point, the knots
+			//inside the upper margin, the last knot) a knot belongs to the
+			//piece on its left
 			double xn = x[n];
-			if (xn == table.knots[n][centers[n]+1])
+			if (xn >= table.knots[n][centers[n]+1] &&
+			    std::binary_search(&table.knots[n][centers[n]+1],
+			                       &table.knots[n][0]+table.nknots[n], xn))
 				xn = std::nextafter(xn, table.knots[n][centers[n]]);
 			for (uint32_t i = 0; i <= table.order[n]; i++)
 				localbasis[n][i] = bspline_deriv(
